@@ -9,15 +9,22 @@ EXTENDS SharedCore
 CONSTANTS Order, Canon
 VARIABLE hist
 
-gvars == <<layout, registry, aliases, needs, generated, priv, n, hist>>
+gvars == <<layout, registry, aliases, needs, generated, priv, n, regstate, nenv, envkind, hist>>
 
 Pos(c) == CHOOSE i \in 1..Len(Order) : Order[i] = c
 Canonical(c) == (Canon => (c \in generated \/ \A i \in 1..(Pos(c) - 1) : Order[i] \in generated)) = TRUE
 
 GInit == Init /\ hist = <<>>
-GNext == \E c \in Clients, codes \in CodeSets, force \in BOOLEAN :
+GNext == \/ \E c \in Clients, codes \in CodeSets, force \in BOOLEAN :
             /\ Canonical(c)
             /\ Generate(c, codes, force, layout.id)
-            /\ hist' = Append(hist, [c |-> c, codes |-> codes, force |-> force])
+            /\ hist' = Append(hist, [c |-> c, codes |-> codes, force |-> force, env |-> "gen"])
+         \/ \E k \in CorruptKinds :
+            /\ Corrupt(k)
+            /\ hist' = Append(hist, [c |-> "-", codes |-> {}, force |-> FALSE, env |-> k])
+         \/ \E c \in Clients, codes \in CodeSets, at \in {"int-registry", "int-aliases"} :
+            /\ Canonical(c)
+            /\ Interrupted(c, codes, at)
+            /\ hist' = Append(hist, [c |-> c, codes |-> codes, force |-> TRUE, env |-> at])
 GSpec == GInit /\ [][GNext]_gvars
 =============================================================================
